@@ -23,6 +23,18 @@ def _lines(obj):
     return o
 
 
+def _xlines(crp):
+    """The three line histograms of a cross plot, or the name of the exception that refuses them."""
+    o = {"exc": "", "diag": [], "vert": [], "white": []}
+    try:
+        o["diag"] = enc.ints(crp.diagline_dist())
+        o["vert"] = enc.ints(crp.vertline_dist())
+        o["white"] = enc.ints(crp.white_vertline_dist())
+    except Exception as ex:
+        o["exc"] = type(ex).__name__
+    return o
+
+
 def _mode_kw(c, pair=False, triple=False):
     key = {"thr": "threshold", "rr": "recurrence_rate", "lrr": "local_recurrence_rate",
            "ans": "adaptive_neighborhood_size", "tstd": "threshold_std"}[c["mode"]]
@@ -129,7 +141,8 @@ def _x(c):
     x = enc.represent(c["x"], c["case"])[0]
     y = enc.represent(c["y"], c["case"] + "y")[0]
     kw = dict(metric=c["metric"])
-    o = {"crp": {"exc": "", "CR": [], "N": 0, "M": 0, "crr": 0, "lines_exc": ""},
+    o = {"crp": {"exc": "", "CR": [], "N": 0, "M": 0, "crr": 0, "lines_exc": "",
+                 "xl": {"exc": "", "diag": [], "vert": [], "white": []}},
          "isrn": {"exc": "", "adj": [], "N": 0, "Nx": 0, "Ny": 0}}
     try:
         kwc = dict(kw)
@@ -149,10 +162,8 @@ def _x(c):
         o["crp"]["N"] = int(crp.N)
         o["crp"]["M"] = int(crp.M)
         o["crp"]["crr"] = enc.num(crp.cross_recurrence_rate())
-        try:
-            crp.diagline_dist()
-        except Exception as ex:
-            o["crp"]["lines_exc"] = type(ex).__name__
+        o["crp"]["xl"] = _xlines(crp)
+        o["crp"]["lines_exc"] = o["crp"]["xl"]["exc"]
         # the same two series on a level of 2^27 (time stamps, Kelvin-like offsets; exact in double precision):
         # distances, hence the cross recurrence matrix, do not depend on a common translation
         o["crp"]["CRfar"] = enc.ints(CrossRecurrencePlot(np.asarray(x, dtype=float) + 134217728.0,
